@@ -629,6 +629,8 @@ def run(ctx):
                         continue
                 if key:
                     ctx.add(RULE, fn, 'call:' + sg, 'exception', 'accepted: ' + TABLE[key], PROPS, line)
+                elif nonempty_end(prog, fn, c, inner):
+                    ctx.add(RULE, fn, 'call:' + sg, 'ok', 'discharged: the end element of a sequence tested non-empty on every path here, nothing removed in between', PROPS, line)
                 else:
                     ctx.add(RULE, fn, 'call:' + sg, 'violation', '%s on a value that may be None/Err: no reasoned entry covers it' % nm, PROPS, line)
             elif nm in ('index', 'index_mut') and len(c.args) == 2:
@@ -696,6 +698,78 @@ def commuted(sg):
                 elif ch == ',' and depth == 0:
                     return '%s%s, %s)' % (op, inner[i + 1:].strip(), inner[:i].strip())
     return None
+
+
+def container_id(v):
+    """identity of the sequence a call receives: ('esc', local) / ('fld', root id, fields) through refs and deref calls"""
+    v = strip(v)
+    hops = 0
+    while v is not None and hops < 6:
+        hops += 1
+        if v.kind == 'call' and v.callee_name() in ('deref', 'deref_mut', 'as_slice', 'as_mut_slice') and v.args:
+            v = strip(v.args[0])
+            continue
+        if v.kind == 'ref' and not v.fields():
+            v = strip(v.args[0])
+            continue
+        break
+    if v is None:
+        return None
+    if v.kind == 'escaped':
+        return ('esc', v.args[0])
+    if v.kind in ('ref', 'load') and v.fields():
+        r = strip(v.args[0])
+        if r is not None and r.kind in ('param', 'escaped'):
+            return ('fld', r.kind, r.args[0], tuple(v.fields()))
+    return None
+
+
+def nonempty_end(prog, fn, c, inner):
+    """unwrap(last / last_mut / first / first_mut (S)) where a test `!S.is_empty()` (or S.len() compared with 0) holds on every path
+    to the call and no shrinking operation on S lies between the test and the call"""
+    from rules.gate import edge_truth
+    if inner is None or inner.kind != 'call' or inner.callee_name() not in ('last', 'last_mut', 'first', 'first_mut') or prog.classify(inner) != 'std' or not inner.args:
+        return False
+    cid = container_id(inner.args[0])
+    if cid is None:
+        return False
+    b = fn.body
+    cfg = b.cfg
+    for sblk, d in b.switch_discr.items():
+        sd = strip(d)
+        neg = False
+        while sd is not None and sd.kind == 'un' and sd.args[0] == 'Not':
+            sd = strip(sd.args[1])
+            neg = not neg
+        nonempty_when = None
+        if sd is not None and sd.kind == 'call' and sd.callee_name() == 'is_empty' and sd.args and container_id(sd.args[0]) == cid:
+            nonempty_when = neg            # is_empty() == False  <=>  non-empty
+        elif sd is not None and sd.kind == 'bin' and sd.args[0] in ('Eq', 'Ne', 'Gt', 'Lt'):
+            x, y = strip(sd.args[1]), strip(sd.args[2])
+            for p_, q_, op_ in ((x, y, sd.args[0]), (y, x, {'Gt': 'Lt', 'Lt': 'Gt'}.get(sd.args[0], sd.args[0]))):
+                if p_ is not None and p_.kind == 'call' and p_.callee_name() == 'len' and p_.args and container_id(p_.args[0]) == cid and q_ is not None and q_.kind == 'const' and q_.args[0] == 0:
+                    nonempty_when = {'Eq': False, 'Ne': True, 'Gt': True}.get(op_)
+                    if nonempty_when is not None and neg:
+                        nonempty_when = not nonempty_when
+        if nonempty_when is None:
+            continue
+        t = b.mir['blocks'][sblk]['term']
+        for succ in set(cfg.succ[sblk]):
+            tr = edge_truth(t, succ)
+            if tr is None or tr != nonempty_when or cfg.pred[succ] != [sblk] or not (succ == c.point[0] or cfg.dominates(succ, c.point[0])):
+                continue
+            shrink = False
+            for c2 in b.calls:
+                if c2 is c or prog.classify(c2) != 'std' or c2.callee_name() not in ('pop', 'remove', 'swap_remove', 'clear', 'truncate', 'drain', 'retain', 'split_off', 'set_len', 'dedup') or not c2.args:
+                    continue
+                if container_id(c2.args[0]) != cid:
+                    continue
+                if (c2.point[0] == c.point[0] and c2.point[1] < c.point[1] and (succ == c.point[0] or cfg.dominates(succ, c2.point[0]))) or \
+                        (c2.point[0] != c.point[0] and cfg.dominates(succ, c2.point[0]) and cfg.dominates(c2.point[0], c.point[0])):
+                    shrink = True
+            if not shrink:
+                return True
+    return False
 
 
 def table_key(mk, name, sg):
